@@ -24,6 +24,7 @@ type profile struct {
 	waits     bool
 	prune     bool
 	inits     bool
+	refresh   bool
 	maxID     int
 	failBias  bool  // fault lists are mostly failures (long failure streaks)
 	afters    []int // gaps between script steps (ms)
@@ -42,6 +43,9 @@ func genCase(t *rapid.T, p profile) Case {
 	}
 	if p.inits {
 		c.Inits = rapid.IntRange(0, 2).Draw(t, "inits")
+	}
+	if p.refresh {
+		c.RefreshMs = rapid.SampledFrom([]int{0, 0, 50, 300}).Draw(t, "refreshMs")
 	}
 	afters := p.afters
 	if afters == nil {
@@ -162,6 +166,13 @@ func checkConverged(w *world, requireAll bool) (string, error) {
 				// declared reconciled by the user: nothing is owed
 				continue
 			}
+			if st.Kind == reconciler.StatusKindRefreshing && w.c.RefreshMs > 0 {
+				// a periodic refresh is under way; the target must already hold the contents
+				if tv, ok := w.target[id]; !ok || tv != o.Val {
+					return "not-converged", fmt.Errorf("object %d is being refreshed but the target has %v,%v instead of val %d; calls:%s", id, tv, ok, o.Val, w.dump())
+				}
+				continue
+			}
 			if st.Kind != reconciler.StatusKindDone {
 				return "not-converged", fmt.Errorf("object %d (val %d gen %d) has status %s after the settle bound %v (want Done); calls:%s", id, o.Val, o.Gen, st.Kind, w.c.settleBound(), w.dump())
 			}
@@ -272,6 +283,9 @@ func checkWriteBack(w *world) (string, error) {
 		if v.Gen != before.Gen || v.Val != before.Gen*10+int(v.ID) {
 			return "clobbered", fmt.Errorf("at %v the reconciler's write (rev %d) left object %d with (val %d gen %d) but the user's last write before it (rev %d) had gen %d: it must change nothing but the status; calls:%s", v.At, v.Rev, v.ID, v.Val, v.Gen, before.Rev, before.Gen, w.dump())
 		}
+		if v.Kind == reconciler.StatusKindRefreshing && w.c.RefreshMs > 0 {
+			continue // the refresher marks Done objects for another Update: a status-only write
+		}
 		if v.Kind != reconciler.StatusKindDone && v.Kind != reconciler.StatusKindError {
 			return "odd-status", fmt.Errorf("at %v the reconciler wrote status %s on object %d", v.At, v.Kind, v.ID)
 		}
@@ -302,7 +316,7 @@ func checkWriteBack(w *world) (string, error) {
 	}
 	w.mu.Unlock()
 	for _, c := range calls {
-		if c.Op == "update" && doneGens[[2]int{int(c.ID), c.Gen}] {
+		if c.Op == "update" && doneGens[[2]int{int(c.ID), c.Gen}] && c.Kind != "Refreshing" {
 			return "updated-non-pending", fmt.Errorf("Update was called for object %d gen %d which the user inserted with status Done; calls:%s", c.ID, c.Gen, w.dump())
 		}
 	}
@@ -322,9 +336,9 @@ func checkWriteBack(w *world) (string, error) {
 	return "", nil
 }
 
-var profC15 = profile{stepKinds: []int{stUpsert, stUpsert, stUpsert, stDelete, stDelReinsert, stInsertDone, stStatusOnly, stPrune, stInitDone}, injKinds: []int{0, 1, 1, 2, 3, 5, 5}, maxFaults: 3, prune: true, inits: true, maxID: 4}
+var profC15 = profile{stepKinds: []int{stUpsert, stUpsert, stUpsert, stDelete, stDelReinsert, stInsertDone, stStatusOnly, stPrune, stInitDone}, injKinds: []int{0, 1, 1, 2, 3, 5, 5}, maxFaults: 3, prune: true, inits: true, refresh: true, maxID: 4}
 
-const ruleC15 = "the C14 stack with write injection: while an Update/UpdateBatch/Delete call is in flight the mock performs a user write on the very object being reconciled (update of the data, delete, delete+re-insert, or a second reconciler's status-only change that keeps the pending id), i.e. between the reconciler's snapshot and its status commit; objects are also inserted with status Done, initializers are registered before start and completed by script steps, Prune() is triggered by script steps and by an interval. Every committed table state is recorded at the commit.rootStored hook with the committing goroutine (user or reconciler). Checked: a reconciler write changes nothing but the status, never re-creates or removes an object, marks Done/Error only a version (id, generation) that a completed Update call with that outcome was given; Update is only called with Pending/Refreshing objects and never for user-Done versions; Prune only when initialized and with exactly Table.All of its transaction; finally everything converges. Non-trivial = a user write hit an operation in flight; distinct by case encoding."
+const ruleC15 = "the C14 stack with write injection: while an Update/UpdateBatch/Delete call is in flight the mock performs a user write on the very object being reconciled (update of the data, delete, delete+re-insert, or a second reconciler's status-only change that keeps the pending id), i.e. between the reconciler's snapshot and its status commit; objects are also inserted with status Done, initializers are registered before start and completed by script steps, Prune() is triggered by script steps and by an interval, and in half of the cases the periodic refresher (50/300 ms) re-marks Done objects as Refreshing. Every committed table state is recorded at the commit.rootStored hook with the committing goroutine (user or reconciler). Checked: a reconciler write changes nothing but the status, never re-creates or removes an object, marks Done/Error only a version (id, generation) that a completed Update call with that outcome was given; Update is only called with Pending/Refreshing objects and never for user-Done versions; Prune only when initialized and with exactly Table.All of its transaction; finally everything converges. Non-trivial = a user write hit an operation in flight; distinct by case encoding."
 
 func TestC15WriteBack(t *testing.T) {
 	recTest(t, "C15", "TestC15WriteBack", ruleC15, profC15, checkWriteBack, func(cl []string) bool {
